@@ -99,7 +99,7 @@ func main() {
 		kComp, kDB = 3000, 1500
 	}
 	if a.Extra == "search" {
-		nComp, nDBSmall, nDB = 600000, 9000, 4500
+		nComp, nDBSmall, nDB = 400000, 6000, 3000
 		kComp, kDB = 0, 0
 	}
 	const kMaxRaw, kMaxMoves, kMaxKeys = 100, 60, 40
